@@ -37,6 +37,9 @@
 // Library::copy_from (class copy-library-properties).  Every other disagreement poisons the state
 // (it is not expanded).
 //
+// A second sub-check, remap.enum (engine E2, see below), enumerates single remap_tags calls over all
+// small multi-element path configurations and a larger list of tables (chains, swaps, cycles, ...).
+//
 // Nothing is sampled: every enabled operation of the alphabet is applied in every reached state.
 // Development aids: C16_DEPTH=<n> overrides the depth, C16_BENCH=1 times make/verify/canon.
 #include <gdstk/gdstk.hpp>
@@ -131,26 +134,32 @@ static std::vector<TStep> table_steps(int m) {
         default: return {{false, TA, VX}, {false, TB, VY}, {true, TA, 0}, {false, TB, VY2}};                     // only TB->VY2 remains
     }
 }
-static void build_table(int m, TagMap& tm) {
-    for (auto& st : table_steps(m)) {
+static void build_table(const std::vector<TStep>& steps, TagMap& tm) {
+    for (auto& st : steps) {
         if (st.del) tm.del(st.k);
         else tm.set(st.k, st.v);
     }
 }
-static std::string table_name(int m) {
+static void build_table(int m, TagMap& tm) { build_table(table_steps(m), tm); }
+static std::string table_name(const std::vector<TStep>& steps) {
     std::string s = "[";
-    for (auto& st : table_steps(m)) s += (s.size() > 1 ? "," : "") + (st.del ? "del" + tagstr(st.k) : "set" + tagstr(st.k) + "->" + tagstr(st.v));
+    for (auto& st : steps) s += (s.size() > 1 ? "," : "") + (st.del ? "del" + tagstr(st.k) : "set" + tagstr(st.k) + "->" + tagstr(st.v));
     return s + "]";
 }
-static Tag map_tag(int m, Tag t) {  // the abstract map after the table's history, as a function
+static std::string table_name(int m) { return table_name(table_steps(m)); }
+static std::map<Tag, Tag> abstract_map(const std::vector<TStep>& steps) {  // the abstract map after the history
     std::map<Tag, Tag> am;
-    for (auto& st : table_steps(m)) {
+    for (auto& st : steps) {
         if (st.del || st.k == st.v) am.erase(st.k);
         else am[st.k] = st.v;
     }
+    return am;
+}
+static Tag apply_once(const std::map<Tag, Tag>& am, Tag t) {
     auto f = am.find(t);
     return f == am.end() ? t : f->second;
 }
+static Tag map_tag(int m, Tag t) { return apply_once(abstract_map(table_steps(m)), t); }
 static void find_colliding_tags() {
     // three tags with home slot 7 of 8 (the probe chain wraps to slots 0 and 1), none already in use
     std::vector<Tag> found;
@@ -320,7 +329,9 @@ static int new_cell(World& w, const char* name, int variant, int serial) {
     f->segment(Vec2{d + 3, 8}, NULL, NULL, false);
     c->flexpath_array.append(f);
     RobustPath* rp = (RobustPath*)allocate_clear(sizeof(RobustPath));
-    rp->init(Vec2{d, 10}, (uint64_t)1, 0.5, 0.0, 0.01, 1000, tr);
+    const double rwidths[2] = {0.5, 0.25}, roffsets[2] = {-0.4, 0.4};
+    Tag trs[2] = {tr, tp};  // two elements: the second follows the polygon's tag, so the tag-state space does not grow
+    rp->init(Vec2{d, 10}, 2, rwidths, roffsets, 0.01, 1000, trs);
     rp->segment(Vec2{d + 4, 10}, NULL, NULL, false);
     c->robustpath_array.append(rp);
     Label* l = (Label*)allocate_clear(sizeof(Label));
@@ -332,8 +343,8 @@ static int new_cell(World& w, const char* name, int variant, int serial) {
     MObj o;
     o.name = name;
     o.ptr = c;
-    o.tags = {tp, tf[0], tf[1], tr, tl};
-    o.nshape = 4;
+    o.tags = {tp, tf[0], tf[1], trs[0], trs[1], tl};
+    o.nshape = 5;
     return add_obj(w, std::move(o));
 }
 static Reference* new_ref(World& w, int owner) {
@@ -1306,6 +1317,206 @@ static void write_raw_files() {
     write(F_RAW6, {simple("ABCDE", 9), simple("AB", 6)});
 }
 
+
+// ------------------------------------------------------------------------------------ remap.enum
+// Exhaustive enumeration (engine E2) of one remap_tags call: every cell configuration
+//   flexpath with 2 or 3 elements x robustpath with 1, 2 or 3 elements, every element tag drawn from
+//   {TA, TB, TC} (so distinct tags and equal tags on two elements both occur), a polygon and a label
+// x every table of the list below (chains, swaps, cycles, identity entries, withdrawn mappings,
+// histories with del, a table that grows to capacity 16, the empty table) x {Cell::remap_tags,
+// Library::remap_tags on a library that also holds a second, fixed cell}.  Oracle: the abstract map
+// left by the table's history applied ONCE to every element / polygon / label tag; every element's
+// tag, get_shape_tags / get_label_tags of every cell and of the library, and the untagged content.
+static const int N_ETABLES = 13;
+static std::vector<TStep> etable_steps(int m) {
+    const Tag a = TA, b = TB, c = TC;
+    switch (m) {
+        case 0: return {};
+        case 1: return {{false, a, b}};
+        case 2: return {{false, a, b}, {false, b, a}};
+        case 3: return {{false, a, b}, {false, b, c}};
+        case 4: return {{false, b, c}, {false, a, b}};
+        case 5: return {{false, a, b}, {false, b, c}, {false, c, a}};
+        case 6: return {{false, a, a}, {false, b, c}};
+        case 7: return {{false, a, b}, {false, b, c}, {false, c, c}};
+        case 8: return {{false, a, VX}, {false, b, VY}, {false, c, VZ}, {false, a, a}, {false, b, b}};
+        case 9: return {{false, a, VX}, {false, b, VY}, {true, a, 0}, {false, b, VY2}};
+        case 10: return {{false, a, b}, {false, b, c}, {true, a, 0}};
+        case 11: return {{false, c, a}, {false, a, b}, {false, c, c}};
+        default: return {{false, a, b}, {false, b, c}, {false, c, VX}, {false, VX, VY}, {false, VY, VZ}};
+    }
+}
+struct EnumCfg { int nf, nr, f[3], r[3], p; };
+static const vf::Radix ENUM_RADIX = {{2, 3, 27, 27, 3}};
+static bool enum_decode(int64_t idx, EnumCfg& c) {  // false: not the canonical index of its configuration
+    std::vector<int> v = ENUM_RADIX.decode(idx);
+    c.nf = 2 + v[0];
+    c.nr = 1 + v[1];
+    for (int i = 0, x = v[2]; i < 3; i++, x /= 3) c.f[i] = x % 3;
+    for (int i = 0, x = v[3]; i < 3; i++, x /= 3) c.r[i] = x % 3;
+    c.p = v[4];
+    for (int i = c.nf; i < 3; i++) if (c.f[i]) return false;
+    for (int i = c.nr; i < 3; i++) if (c.r[i]) return false;
+    return true;
+}
+static Cell* enum_cell(const char* name, int nf, const Tag* ft, int nr, const Tag* rt, Tag pt, Tag lt) {
+    Cell* c = (Cell*)allocate_clear(sizeof(Cell));
+    c->init(name);
+    Polygon* p = (Polygon*)allocate_clear(sizeof(Polygon));
+    *p = rectangle(Vec2{0, 0}, Vec2{2, 1}, pt);
+    c->polygon_array.append(p);
+    const double w[3] = {0.5, 0.25, 0.125}, o[3] = {-1, 0, 1};
+    FlexPath* f = (FlexPath*)allocate_clear(sizeof(FlexPath));
+    f->init(Vec2{0, 5}, (uint64_t)nf, w, o, 0.01, ft);
+    f->segment(Vec2{3, 5}, NULL, NULL, false);
+    c->flexpath_array.append(f);
+    RobustPath* r = (RobustPath*)allocate_clear(sizeof(RobustPath));
+    r->init(Vec2{0, 10}, (uint64_t)nr, w, o, 0.01, 1000, rt);
+    r->segment(Vec2{4, 10}, NULL, NULL, false);
+    c->robustpath_array.append(r);
+    Label* l = (Label*)allocate_clear(sizeof(Label));
+    l->init(name);
+    l->tag = lt;
+    c->label_array.append(l);
+    return c;
+}
+static std::string enum_case_json(const EnumCfg& c, int m, int level) {
+    const Tag al[3] = {TA, TB, TC};
+    std::string ft, rt;
+    for (int i = 0; i < c.nf; i++) ft += tagstr(al[c.f[i]]);
+    for (int i = 0; i < c.nr; i++) rt += tagstr(al[c.r[i]]);
+    return jobj({{"flexpath_element_tags", jstr(ft)}, {"robustpath_element_tags", jstr(rt)}, {"polygon_tag", jstr(tagstr(al[c.p]))}, {"label_tag", jstr(tagstr(al[(c.p + 1) % 3]))},
+                 {"table", jstr(m < 0 ? "all" : table_name(etable_steps(m)))}, {"call", jstr(level < 0 ? "both" : level ? "Library::remap_tags (library also holds a fixed second cell)" : "Cell::remap_tags")}});
+}
+static void enum_one(int64_t idx) {
+    EnumCfg cfg;
+    if (!enum_decode(idx, cfg)) return;
+    const Tag al[3] = {TA, TB, TC};
+    const std::string sub = "remap.enum";
+    for (int m = 0; m < N_ETABLES; m++) {
+        std::vector<TStep> steps = etable_steps(m);
+        std::map<Tag, Tag> am = abstract_map(steps);
+        for (int level = 0; level < 2; level++) {
+            Tag ft[3], rt[3];
+            for (int i = 0; i < 3; i++) { ft[i] = al[cfg.f[i]]; rt[i] = al[cfg.r[i]]; }
+            std::vector<Cell*> cells = {enum_cell("E", cfg.nf, ft, cfg.nr, rt, al[cfg.p], al[(cfg.p + 1) % 3])};
+            if (level) {
+                const Tag f2[3] = {TC, TA, TA}, r2[3] = {TA, TB, TC};
+                cells.push_back(enum_cell("F", 3, f2, 3, r2, TC, TA));
+            }
+            std::vector<std::vector<Tag>> want(cells.size());
+            std::vector<size_t> nshape(cells.size());
+            std::vector<std::string> before(cells.size());
+            bool chained = false, later_element = false;
+            for (size_t k = 0; k < cells.size(); k++) {
+                real_tags(*cells[k], want[k], nshape[k]);
+                before[k] = content_sig(*cells[k]);
+                for (auto& t : want[k]) {
+                    Tag u = apply_once(am, t);
+                    if (u != t && apply_once(am, u) != u) chained = true;
+                    t = u;
+                }
+            }
+            for (int i = 1; i < cfg.nr; i++) if (apply_once(am, rt[i]) != rt[i]) later_element = true;
+            for (int i = 1; i < cfg.nf; i++) if (apply_once(am, ft[i]) != ft[i]) later_element = true;
+            TagMap tm = {};
+            build_table(steps, tm);
+            Library lib = {};
+            if (level) {
+                for (Cell* c : cells) lib.cell_array.append(c);
+                lib.remap_tags(tm);
+            } else
+                cells[0]->remap_tags(tm);
+            tm.clear();
+            std::string replay = "sub=remap.enum idx=" + std::to_string(idx);
+            JFields base = {{"call", jstr(level ? "Library::remap_tags" : "Cell::remap_tags")}, {"table", jint(m)}, {"chained_for_this_cell", jbool(chained)}};
+            std::set<Tag> lib_s, lib_l;
+            for (size_t k = 0; k < cells.size(); k++) {
+                std::vector<Tag> got;
+                size_t ns;
+                real_tags(*cells[k], got, ns);
+                if (got != want[k]) {
+                    // which element: positions are polygon, flexpath elements, robustpath elements, label
+                    size_t pos = 0;
+                    while (pos < got.size() && pos < want[k].size() && got[pos] == want[k][pos]) pos++;
+                    size_t nfk = cells[k]->flexpath_array[0]->num_elements, nrk = cells[k]->robustpath_array[0]->num_elements;
+                    std::string kind = pos == 0 ? "polygon" : pos <= nfk ? "flexpath" : pos <= nfk + nrk ? "robustpath" : "label";
+                    int64_t ei = pos == 0 ? 0 : pos <= nfk ? (int64_t)pos - 1 : pos <= nfk + nrk ? (int64_t)(pos - 1 - nfk) : 0;
+                    JFields tg = base;
+                    tg.push_back({"element_kind", jstr(kind)});
+                    tg.push_back({"element_index", jint(ei)});
+                    tg.push_back({"num_elements", jint(kind == "flexpath" ? (int64_t)nfk : kind == "robustpath" ? (int64_t)nrk : 1)});
+                    R->violation(sub, "remap-element", tg, enum_case_json(cfg, m, level),
+                                 std::string("cell '") + cells[k]->name + "': tags after the call are " + tags_str(got) + ", the table applied once to every tag gives " + tags_str(want[k]) + " (order: polygon, flexpath elements, robustpath elements, label)", replay);
+                    break;
+                }
+                if (content_sig(*cells[k]) != before[k]) { R->violation(sub, "remap-content", base, enum_case_json(cfg, m, level), "remap_tags changed something other than tags", replay); break; }
+                Set<Tag> st = {}, lt = {};
+                cells[k]->get_shape_tags(st);
+                cells[k]->get_label_tags(lt);
+                std::set<Tag> gs, gl, ms, ml;
+                for (SetItem<Tag>* it = st.next(NULL); it; it = st.next(it)) gs.insert(it->value);
+                for (SetItem<Tag>* it = lt.next(NULL); it; it = lt.next(it)) gl.insert(it->value);
+                bool cnt_ok = st.count == gs.size() && lt.count == gl.size();
+                st.clear();
+                lt.clear();
+                for (size_t i = 0; i < want[k].size(); i++) (i < nshape[k] ? ms : ml).insert(want[k][i]);
+                lib_s.insert(ms.begin(), ms.end());
+                lib_l.insert(ml.begin(), ml.end());
+                if (!cnt_ok || gs != ms || gl != ml) {
+                    JFields tg = base;
+                    tg.push_back({"level", jstr("cell")});
+                    R->violation(sub, "remap-query", tg, enum_case_json(cfg, m, level), "get_shape_tags/get_label_tags of the cell differ from the model's sets", replay);
+                    break;
+                }
+            }
+            if (level) {
+                Set<Tag> st = {}, lt = {};
+                lib.get_shape_tags(st);
+                lib.get_label_tags(lt);
+                std::set<Tag> gs, gl;
+                for (SetItem<Tag>* it = st.next(NULL); it; it = st.next(it)) gs.insert(it->value);
+                for (SetItem<Tag>* it = lt.next(NULL); it; it = lt.next(it)) gl.insert(it->value);
+                st.clear();
+                lt.clear();
+                if (gs != lib_s || gl != lib_l) {
+                    JFields tg = base;
+                    tg.push_back({"level", jstr("library")});
+                    R->violation(sub, "remap-query", tg, enum_case_json(cfg, m, level), "Library::get_shape_tags/get_label_tags differ from the model's sets", replay);
+                }
+                lib.cell_array.clear();
+            }
+            for (Cell* c : cells) { c->free_all(); free_allocation(c); }
+            R->count("cases");
+            R->count("remap_enum_cases");
+            if (chained || later_element) R->count("nontrivial");
+            if (chained) R->count("remap_enum_chained");
+            if (later_element) R->count("remap_enum_later_element_remapped");
+        }
+    }
+}
+static void remap_enum() {
+    const std::string sub = "remap.enum";
+    int64_t n = ENUM_RADIX.total(), canonical = 0;
+    EnumCfg c;
+    for (int64_t i = 0; i < n; i++) if (enum_decode(i, c)) canonical++;
+    std::vector<std::string> names;
+    for (int m = 0; m < N_ETABLES; m++) names.push_back(jstr(table_name(etable_steps(m))));
+    R->note("remap.enum tables: " + jarr(names));
+    PFOptions opt;
+    opt.sub = sub;
+    opt.case_timeout_s = 20;
+    const int64_t G = 64;  // indices per work item
+    int64_t groups = (n + G - 1) / G;
+    bool ok = parallel_for(*R, groups, [&](int64_t g) { for (int64_t i = g * G; i < std::min(n, (g + 1) * G); i++) enum_one(i); },
+                           [&](int64_t g) { return jobj({{"config_indices", jstr(std::to_string(g * G) + ".." + std::to_string(std::min(n, (g + 1) * G) - 1))}}); },
+                           [&](int64_t g) { return "sub=remap.enum group=" + std::to_string(g); }, opt);
+    for (int64_t i = n / 2; i < n; i++)
+        if (enum_decode(i, c)) { R->sample(sub, enum_case_json(c, 3, 1)); break; }
+    R->bound(sub, fmt("%lld cell configurations (flexpath 2..3 elements x robustpath 1..3 elements, element tags over 3 colliding tags, polygon, label) x %d tables x {Cell,Library}::remap_tags", (long long)canonical, N_ETABLES), ok,
+             canonical * N_ETABLES * 2);
+}
+
 int main(int argc, char** argv) {
     Run run("C16", argc, argv);
     R = &run;
@@ -1318,6 +1529,11 @@ int main(int argc, char** argv) {
     write_raw_files();
     if (run.replaying()) {
         std::string sub = run.rarg("sub");
+        if (sub == "remap.enum") {
+            if (!run.rarg("idx").empty()) enum_one(atoll(run.rarg("idx").c_str()));
+            else { int64_t g = atoll(run.rarg("group").c_str()); for (int64_t i = g * 64; i < std::min(ENUM_RADIX.total(), (g + 1) * 64); i++) enum_one(i); }
+            return run.finish();
+        }
         int k = sub.size() > 10 ? atoi(sub.substr(10).c_str()) : 0;
         GraphSys s(k);
         if (!run.rarg("hist").empty()) replay_hist(run, s, s.sub, parse_hist(run.rarg("hist")));
@@ -1343,6 +1559,7 @@ int main(int argc, char** argv) {
     int depth6 = T ? 4 : 2;  // init6 (prefix-related names): string-comparison slips show at depth 1-2; quick stays cheap
     if (getenv("C16_DEPTH")) depth = depth6 = atoi(getenv("C16_DEPTH"));
     if (getenv("C16_DEPTH6")) depth6 = atoi(getenv("C16_DEPTH6"));
+    remap_enum();
     run.note("colliding tags (home slot hash(Tag) % 8 from gdstk's own hash): TA=" + tagstr(TA) + fmt(" slot %d, TB=", (int)(hash(TA) % 8)) + tagstr(TB) + fmt(" slot %d, TC=", (int)(hash(TB) % 8)) + tagstr(TC) +
              fmt(" slot %d; remap tables: ", (int)(hash(TC) % 8)) + table_name(0) + " " + table_name(1) + " " + table_name(2) + " " + table_name(3) + " (the last two in init0 and init6 only)");
     run.note(fmt("alphabet: %d operations per state (disabled ones are skipped); depth %d from each of 6 initial libraries, depth %d from the prefix-name library init6", GraphSys(0).nops(), depth, depth6));
